@@ -396,6 +396,7 @@ def obs_equal(op, impl, model, cfg):
 
 
 DOMAIN_NOTES = {}
+DOMAINC_NOTES = {}
 
 
 class Failure:
@@ -450,6 +451,8 @@ def compare(pid, scen, model, cfg, max_fail=5):
             if b.startswith("SPEC DOMAIN "):
                 # outside the hypotheses of the closed theorems but still compared with the oracle
                 DOMAIN_NOTES[pid] = DOMAIN_NOTES.get(pid, 0) + 1
+            if b.startswith("SPEC DOMAINC "):
+                DOMAINC_NOTES[pid] = DOMAINC_NOTES.get(pid, 0) + 1
             if b.startswith("SPEC HYP "):
                 fails.append(Failure("tie", pid, "a hypothesis of the property theorems is not met on a visited state: " + b[9:], episode_prefix(irecs, i), ri["obs"], rm["obs"]))
         spec_bang = [b for b in rm["bangs"] if b.startswith("SPEC " + pid + " ")]
@@ -679,6 +682,7 @@ def run_property(pid, tier, seed, replay=None):
         "input_distribution": dist,
         "known_findings_reported": sorted(known_printed),
         "compared_outside_closed_theorem_domain": DOMAIN_NOTES.get(pid, 0),
+        "compared_outside_cache_theorem_domain": DOMAINC_NOTES.get(pid, 0),
         "explanation": cfg.get("explanation", ""),
     }
     level = "proof"
